@@ -1,5 +1,5 @@
 """property id -> check function"""
-from . import storecheck, followcheck, wirecheck, httpcheck, c06check, crashcheck
+from . import storecheck, followcheck, wirecheck, httpcheck, c06check, crashcheck, servecheck
 
 REGISTRY = {}
 for p in ("C01", "C05", "C06", "C07", "C08", "C09", "C20"):
@@ -16,3 +16,6 @@ REGISTRY["C10"] = httpcheck.run
 REGISTRY["C06"] = c06check.run
 
 REGISTRY["C04"] = crashcheck.run
+
+for p in ("C14", "C15", "C16", "C17"):
+    REGISTRY[p] = servecheck.run
